@@ -24,7 +24,24 @@ func H_C16_mask() {
 	c := WithConfig(Dir(dir), Filename("f"))
 	n := vxrt.Param("n", 1)
 	// masked member m (a string, so that Type[string] is satisfied), unmasked member a
-	m1, m2 := symString("masked-1", n), symString("masked-2", n)
+	matcherKind := vxrt.Choice("matcher", 3)
+	// masked values: strings; for Any and Custom also null / number / bool (Type[string] needs strings)
+	maskedVal := func(label string) string {
+		if matcherKind == 1 {
+			return symString(label, n)
+		}
+		switch vxrt.Choice(label+"-kind", 4) {
+		case 0:
+			return symString(label, n)
+		case 1:
+			return "null"
+		case 2:
+			return "7"
+		default:
+			return "false"
+		}
+	}
+	m1, m2 := maskedVal("masked-1"), maskedVal("masked-2")
 	a1 := symString("unmasked-1", n)
 	a2 := a1
 	sameOffMask := vxrt.Bool("same-off-mask")
@@ -35,7 +52,7 @@ func H_C16_mask() {
 	doc1 := `{"a":` + a1 + `,"m":` + m1 + `}`
 	doc2 := `{"a":` + a2 + `,"m":` + m2 + `}`
 	var mk func() match.JSONMatcher
-	switch vxrt.Choice("matcher", 3) {
+	switch matcherKind {
 	case 0:
 		mk = func() match.JSONMatcher { return match.Any("m") }
 	case 1:
